@@ -138,3 +138,9 @@ Fixpoint failing_from {X} (chk : X -> bool) (i : nat) (l : list X) : list nat :=
   | x :: l' => if chk x then failing_from chk (S i) l' else i :: failing_from chk (S i) l'
   end.
 Definition failing {X} (chk : X -> bool) (l : list X) : list nat := failing_from chk 0 l.
+
+Fixpoint assoc_z {B} (k : Z) (l : list (Z * B)) : option B :=
+  match l with
+  | [] => None
+  | (k', v) :: l' => if Z.eqb k k' then Some v else assoc_z k l'
+  end.
